@@ -197,8 +197,11 @@ def make_loss(c, theta_init=None):
     free = free_theta(c, c.theta) if theta_init is None else theta_init
     y = c.y[:, 0] if (c.y.shape[1] == 1) else c.y
     c.m.parameters = list(c.theta)
+    # initial values as the caller holds them: a python list, or (x0_as_array) ONE float ndarray owned by the caller and handed to
+    # every loss object built for this case
+    x0_arg = c.x0_array if getattr(c, "x0_as_array", False) else list(c.x0)
     with contextlib.redirect_stdout(io.StringIO()):
-        return cls(np.array(free, dtype=float), c.m, list(c.x0), c.t0, c.times, y, c.state_arg, **kw)
+        return cls(np.array(free, dtype=float), c.m, x0_arg, c.t0, c.times, y, c.state_arg, **kw)
 
 
 def free_theta(c, theta):
